@@ -19,45 +19,45 @@ import (
 )
 
 type Clause struct {
-	Kind  string // requires, ensures, invariant, decreases, modifies
-	Label string
-	Expr  string // source text
-	Loop  int    // for invariant/decreases
-	Line  string // file:line of the clause (for messages only)
-	GenFn string // name of generated function
-	Props []string // optional per-clause property override
-	Assumed bool   // label starts with "assumed": used at call sites, not checked on the body (trusted base)
-	Locals []string
+	Kind    string // requires, ensures, invariant, decreases, modifies
+	Label   string
+	Expr    string   // source text
+	Loop    int      // for invariant/decreases
+	Line    string   // file:line of the clause (for messages only)
+	GenFn   string   // name of generated function
+	Props   []string // optional per-clause property override
+	Assumed bool     // label starts with "assumed": used at call sites, not checked on the body (trusted base)
+	Locals  []string
 }
 
 type Contract struct {
-	Key      string // "pkgpath.Func" or "pkgpath.(*T).M" / "pkgpath.(T).M"; for ext: "strings.Index" / "(*bytes.Buffer).WriteByte"
-	PkgPath  string // package the contract is declared in
-	Kind     string // func, ext, iface, lemma
-	Sig      string // explicit signature text for ext / iface: "(s string, c byte) (r int)"
-	Requires []*Clause
-	Ensures  []*Clause
-	Loops    map[int][]*Clause
-	Modifies []string
-	Decreases *Clause
-	CallbackInv []*Clause
-	CrashInv []*Clause
-	ModFn    string
-	Inline   bool
-	Pure     bool
-	Trusted  bool     // contract assumed, body not verified (repo function outside the subset)
-	Opaque   bool     // uninterpreted pure function: only its ensures are known
+	Key           string // "pkgpath.Func" or "pkgpath.(*T).M" / "pkgpath.(T).M"; for ext: "strings.Index" / "(*bytes.Buffer).WriteByte"
+	PkgPath       string // package the contract is declared in
+	Kind          string // func, ext, iface, lemma
+	Sig           string // explicit signature text for ext / iface: "(s string, c byte) (r int)"
+	Requires      []*Clause
+	Ensures       []*Clause
+	Loops         map[int][]*Clause
+	Modifies      []string
+	Decreases     *Clause
+	CallbackInv   []*Clause
+	CrashInv      []*Clause
+	ModFn         string
+	Inline        bool
+	Pure          bool
+	Trusted       bool // contract assumed, body not verified (repo function outside the subset)
+	Opaque        bool // uninterpreted pure function: only its ensures are known
 	NoPanicExempt bool
-	MayPanic bool
-	Serves   []string
-	Uses     []string
-	Attrs    map[string]string
-	Pos      string
-	Lit      *ast.FuncLit
-	Captured []string // closure contracts: names of captured variables (leading clause parameters)
-	RidxVar    map[int]string          // loop ordinal -> index variable of an index loop `for i := ...`: a clause written for a range loop names `ridx`
-	NameAlias  map[string]string       // recorded parameter / captured-variable name -> its name in the current tree (rename)
-	LocalAlias map[string]localBinding // locals named in loop clauses that the current tree no longer has under that name (rename): bound by type and ordinal
+	MayPanic      bool
+	Serves        []string
+	Uses          []string
+	Attrs         map[string]string
+	Pos           string
+	Lit           *ast.FuncLit
+	Captured      []string                // closure contracts: names of captured variables (leading clause parameters)
+	RidxVar       map[int]string          // loop ordinal -> index variable of an index loop `for i := ...`: a clause written for a range loop names `ridx`
+	NameAlias     map[string]string       // recorded parameter / captured-variable name -> its name in the current tree (rename)
+	LocalAlias    map[string]localBinding // locals named in loop clauses that the current tree no longer has under that name (rename): bound by type and ordinal
 
 	// filled by generator
 	ParamNames  []string // receiver first
@@ -193,8 +193,8 @@ func parseContractComments(fset *token.FileSet, f *ast.File, pkgPath string) ([]
 					default:
 						return nil, fmt.Errorf("%s: bad loop clause kind", where)
 					}
-					label, _, e := splitLabel(strings.TrimSpace(r2[len(kind):]))
-					cl := &Clause{Kind: kind, Label: label, Expr: e, Loop: n, Line: where, Assumed: strings.HasPrefix(label, "assumed")}
+					label, lprops, e := splitLabel(strings.TrimSpace(r2[len(kind):]))
+					cl := &Clause{Kind: kind, Label: label, Props: lprops, Expr: e, Loop: n, Line: where, Assumed: strings.HasPrefix(label, "assumed")}
 					cur.Loops[n] = append(cur.Loops[n], cl)
 					lastClause = cl
 				case "crashinv":
@@ -621,12 +621,12 @@ func vcIte[T any](c bool, a, b T) T {
 `
 
 type genCtx struct {
-	cs  *ContractSet
-	w   *World
-	pkg *Pkg
-	qf  types.Qualifier
+	cs      *ContractSet
+	w       *World
+	pkg     *Pkg
+	qf      types.Qualifier
 	imports map[string]string // path -> name
-	b   strings.Builder
+	b       strings.Builder
 }
 
 func (g *genCtx) typeStr(t types.Type) string {
